@@ -34,15 +34,13 @@ def expected_pages(tr):
             for c in children:
                 if c["kind"] == "f" and ct.is_cmake(c["name"]) and (rel + (c["name"],), False) not in tbl:
                     out.add("/".join(rel + (".".join(c["name"].split(".")[:-1]) + ".rst",)))
-        if not case["recursive"] and processed:
-            return True
+        if not case["recursive"]:
+            return
         for c in children:
             if c["kind"] == "d" and (rel + (c["name"],), True) not in tbl:
                 if auto and not has_cmake(c["children"], rel + (c["name"],)):
                     continue
-                if rec(c["children"], rel + (c["name"],), False) and not case["recursive"]:
-                    return True
-        return False
+                rec(c["children"], rel + (c["name"],), False)
     rec(tr.model_tree(), (), True)
     return out, False
 
